@@ -45,8 +45,8 @@ Record cfg := mkcfg {
 (* core/metainfo.go: a metainfo is determined by the name it was built for, the bytes it was
    computed from (length, piece sums) and the piece length. *)
 Record minfo := mkmi { mi_name : N; mi_data : bytes; mi_pl : Z }.
-(* cache dir entry: data file + optional _torrentmeta sidecar *)
-Record dent := mkdent { d_data : bytes; d_meta : option minfo }.
+(* cache dir entry: data file + optional _torrentmeta sidecar + the _persist sidecar (write-back pending) *)
+Record dent := mkdent { d_data : bytes; d_meta : option minfo; d_persist : bool }.
 (* blob_memory_cache.go:27-32 MemoryEntry *)
 Record ment := mkment { m_data : bytes; m_mi : minfo; m_at : N }.
 
@@ -163,12 +163,12 @@ Definition verify_ok (name : N) (data : bytes) : bool :=
 Definition move_in (s : st) (name : N) (data : bytes) : st * mv :=
   if negb (verify_ok name data) then (s, MvBad)
   else if has name (disk s) then (s, MvExist)
-  else (set_disk s (aset name (mkdent data None) (disk s)), MvOk).
+  else (set_disk s (aset name (mkdent data None false) (disk s)), MvOk).
 
 (* cacheStore.SetCacheFileMetadata(TorrentMeta): only for a file in the cache dir *)
 Definition set_meta (s : st) (name : N) (mi : minfo) : st * bool :=
   match alookup name (disk s) with
-  | Some d => (set_disk s (aset name (mkdent (d_data d) (Some mi)) (disk s)), true)
+  | Some d => (set_disk s (aset name (mkdent (d_data d) (Some mi) (d_persist d)) (disk s)), true)
   | None => (s, false)
   end.
 
@@ -182,7 +182,10 @@ Definition gen_meta (s : st) (name : N) (pl : Z) : st * bool :=
 
 (* server.go:954 writeBack: persist sidecar (needs the cache file), task (always accepted), Generate *)
 Definition write_back (s : st) (name : N) : st * bool :=
-  if has name (disk s) then gen_meta s name (c_genpl cf) else (s, false).
+  match alookup name (disk s) with
+  | Some d => gen_meta (set_disk s (aset name (mkdent (d_data d) (d_meta d) true) (disk s))) name (c_genpl cf)
+  | None => (s, false)
+  end.
 
 (* server.go:705 handleUploadConflict (cluster uploads only) *)
 Definition on_conflict (cluster : bool) (s : st) (name : N) : st * out :=
@@ -229,8 +232,9 @@ Definition step (s : st) (o : op bytes) : st * out :=
                | (_, MvBad) => (s1, OErr)                               (* ca_store.go:183 *)
                | (_, MvExist) => on_conflict cluster s1 name            (* uploader.go:95 *)
                | (s2, MvOk) =>
-                   (* server.go:697 Generate / server.go:870 writeBack (the file is in the cache dir) *)
-                   let '(s3, ok) := gen_meta s2 name (c_genpl cf) in (s3, if ok then OOk else OErr)
+                   (* server.go:697 Generate / server.go:870 writeBack *)
+                   let '(s3, ok) := if cluster then write_back s2 name else gen_meta s2 name (c_genpl cf) in
+                   (s3, if ok then OOk else OErr)
                end
            end
   | Create name w =>
@@ -273,8 +277,11 @@ Definition step (s : st) (o : op bytes) : st * out :=
   | Expire => (set_mem s (filter (fun p => negb (expired s (snd p))) (mem s)), OOk)
   | Delete name =>
       if negb (valid name) then (s, OErr)
-      else if has name (disk s) then (set_disk s (aremove name (disk s)), OOk)
-      else (s, ONotFound)                                               (* server.go:621-631 *)
+      else match alookup name (disk s) with
+           | Some d => if d_persist d then (s, OErr)                    (* file_entry.go:432-441 ErrFilePersisted *)
+                       else (set_disk s (aremove name (disk s)), OOk)
+           | None => (s, ONotFound)                                     (* server.go:621-631 *)
+           end
   | GenMeta name pl =>
       if negb (valid name) then (s, OErr)
       else let '(s', ok) := gen_meta s name pl in (s', if ok then OOk else OErr)
@@ -403,7 +410,8 @@ Inductive aop :=
 | AMoveItem (name : N) (e : ment)            (* the drain's WriteCacheFile of an item *)
 | AMemRemove (name : N)                      (* memCache.Remove *)
 | AMemRemoveBatch (names : list N)           (* memCache.RemoveBatch (any subset: every TTL / clock) *)
-| ADelete (name : N).                        (* DeleteCacheFile *)
+| ASetPersist (name : N) (v : bool)          (* SetCacheFileMetadata(Persist) / DeleteCacheFileMetadata *)
+| ADelete (name : N).                        (* DeleteCacheFile (refused while persisted) *)
 
 Fixpoint in_items (name : N) (e : ment) (l : list (N * ment)) : bool :=
   match l with
@@ -435,7 +443,7 @@ Definition astep (a : ast) (o : aop) : ast :=
       else a
   | AMove name data =>
       if verify_ok H cf name data && negb (has name (a_disk a))
-      then mkast (aset name (mkdent data None) (a_disk a)) (a_mem a) (a_items a) (a_seen a)
+      then mkast (aset name (mkdent data None false) (a_disk a)) (a_mem a) (a_items a) (a_seen a)
       else a
   | ARead name =>
       match v_data (aview a name) with
@@ -445,7 +453,7 @@ Definition astep (a : ast) (o : aop) : ast :=
   | ASetMetaSeen name data pl =>
       if in_seen name data (a_seen a) && (0 <? pl)%Z
       then match alookup name (a_disk a) with
-           | Some d => mkast (aset name (mkdent (d_data d) (Some (mkmi name data pl))) (a_disk a))
+           | Some d => mkast (aset name (mkdent (d_data d) (Some (mkmi name data pl)) (d_persist d)) (a_disk a))
                              (a_mem a) (a_items a) (a_seen a)
            | None => a
            end
@@ -453,19 +461,28 @@ Definition astep (a : ast) (o : aop) : ast :=
   | ASetMetaItem name e =>
       if in_items name e (a_items a)
       then match alookup name (a_disk a) with
-           | Some d => mkast (aset name (mkdent (d_data d) (Some (m_mi e))) (a_disk a))
+           | Some d => mkast (aset name (mkdent (d_data d) (Some (m_mi e)) (d_persist d)) (a_disk a))
                              (a_mem a) (a_items a) (a_seen a)
            | None => a
            end
       else a
   | AMoveItem name e =>
       if in_items name e (a_items a) && verify_ok H cf name (m_data e) && negb (has name (a_disk a))
-      then mkast (aset name (mkdent (m_data e) None) (a_disk a)) (a_mem a) (a_items a) (a_seen a)
+      then mkast (aset name (mkdent (m_data e) None false) (a_disk a)) (a_mem a) (a_items a) (a_seen a)
       else a
   | AMemRemove name => mkast (a_disk a) (aremove name (a_mem a)) (a_items a) (a_seen a)
   | AMemRemoveBatch names =>
       mkast (a_disk a) (fold_left (fun m n => aremove n m) names (a_mem a)) (a_items a) (a_seen a)
-  | ADelete name => mkast (aremove name (a_disk a)) (a_mem a) (a_items a) (a_seen a)
+  | ASetPersist name v =>
+      match alookup name (a_disk a) with
+      | Some d => mkast (aset name (mkdent (d_data d) (d_meta d) v) (a_disk a)) (a_mem a) (a_items a) (a_seen a)
+      | None => a
+      end
+  | ADelete name =>
+      match alookup name (a_disk a) with
+      | Some d => if d_persist d then a else mkast (aremove name (a_disk a)) (a_mem a) (a_items a) (a_seen a)
+      | None => a
+      end
   end.
 
 Definition arun (a : ast) (l : list aop) : ast := fold_left astep l a.
